@@ -282,6 +282,22 @@ func (g *gen) item() {
 		g.emit([]byte{0xc1, 0xd1, 0xe1}[r.Intn(3)])
 		s := g.stackAddr()
 		g.emit(0x31, uint8(s), uint8(s>>8))
+	case k == 96:
+		// the no-op register moves that debuggers and test harnesses use as markers: a breakpoint
+		// (LD B,B), a debug message (LD D,D; JR over "64 64 00 00" and a text) and their siblings.
+		// For the CPU they are plain one-cycle loads and a three-cycle jump.
+		switch r.Intn(3) {
+		case 0:
+			g.emit(0x40)
+		case 1:
+			n := r.Intn(12)
+			g.emit(0x52, 0x18, uint8(4+n), 0x64, 0x64, 0x00, 0x00)
+			for ; n > 0; n-- {
+				g.emit(uint8(0x20 + r.Intn(0x5f)))
+			}
+		case 2:
+			g.emit([]byte{0x49, 0x52, 0x5b, 0x64, 0x6d, 0x7f}[r.Intn(6)])
+		}
 	case o.Interrupts && k < 6:
 		switch r.Intn(6) {
 		case 0:
